@@ -54,6 +54,8 @@ def _setup(it):
     from sa.skia import install_skia
     install_dom(it)
     install_skia(it)
+    # the children of the case groups are 10 x 10 squares
+    it.hooks[("svg_pathops", "path_area")] = lambda i, a, k: 100
 
 
 def check_removable_predicate(repo: Repo, rep: Report, rule: str, what: str):
